@@ -1,17 +1,88 @@
 (* C04 — property theorems only: each closed by [exact] of a lemma proved elsewhere, or by
    computation over a table regenerated from /repo. *)
-From Coq Require Import List String.
-From Helm Require Import Values.Tree Values.Merge Values.Coalesce Gen.ValueOrder.
+From Coq Require Import List String ZArith.
+From Helm Require Import Values.Tree Values.Merge Values.Coalesce Values.Options
+                         Values.MergeProofs Values.CoalesceProofs Gen.ValueOrder.
 Import ListNotations.
 Local Open Scope string_scope.
+
+(* loader.MergeMaps folded over any list of sources (low -> high precedence, e.g. the -f files
+   in command-line order): at every path the leaf (scalar, null or list: anything that is not
+   a table) of the result is the leaf of the LAST source that defines the path; a source
+   defines a path when walking it reaches the end or meets a non-table on the way (which
+   replaces everything below); tables merge key by key. *)
+Theorem C04_merge_precedence : forall (srcs : list val) (base : val) (p : list string),
+  Forall wf srcs ->
+  leaf_at p (merge_all base srcs) =
+  match last_defining p srcs with
+  | Some s => leaf_at p s
+  | None => leaf_at p base
+  end.
+Proof. exact merge_all_leaf. Qed.
+Print Assumptions C04_merge_precedence.
+
+Example C04_merge_precedence_nonvacuous :
+  Forall wf ex_srcs
+  /\ leaf_at ["a"; "x"] (merge_all (VMap []) ex_srcs) = Some VNull
+  /\ leaf_at ["a"; "y"] (merge_all (VMap []) ex_srcs) = Some (VNum 2%Z)
+  /\ leaf_at ["l"] (merge_all (VMap []) ex_srcs) = Some (VList [VNum 3%Z])
+  /\ leaf_at ["s"] (merge_all (VMap []) ex_srcs) = None
+  /\ leaf_at ["s"; "now"] (merge_all (VMap []) ex_srcs) = Some (VStr "table").
+Proof. exact (conj ex_srcs_wf ex_merge_values). Qed.
+Print Assumptions C04_merge_precedence_nonvacuous.
 
 (* The order in which values.Options.MergeValues (pkg/cli/values/options.go) folds the flag
    families into the result, lowest precedence first:
    -f files < --set-json < --set < --set-string < --set-file < --set-literal,
-   and the function each family is merged with. *)
+   and the function each family is merged with.  [value_order] / [value_order_calls] are
+   regenerated from the Go source on every run; the model Options.merge_values is the fold in
+   [expected_order]. *)
 Theorem C04_flag_family_order :
   value_order = ["ValueFiles"; "JSONValues"; "Values"; "StringValues"; "FileValues"; "LiteralValues"]
+  /\ value_order = expected_order
   /\ value_order_calls = ["loader.MergeMaps"; "loader.MergeMaps+strvals.ParseJSON"; "strvals.ParseInto";
-                          "strvals.ParseIntoString"; "strvals.ParseIntoFile"; "strvals.ParseLiteralInto"].
-Proof. split; reflexivity. Qed.
+                          "strvals.ParseIntoString"; "strvals.ParseIntoFile"; "strvals.ParseLiteralInto"]
+  /\ (forall o, merge_values o = merge_values_in value_order o []).
+Proof. repeat split; reflexivity. Qed.
 Print Assumptions C04_flag_family_order.
+
+(* ToRenderValues for a chart without dependencies: a value the user sets wins; a path the
+   user says nothing about shows the chart's default; a user null removes a default (and
+   stays as a null where there is no default); nested tables merge (the clauses hold at every
+   depth). *)
+Theorem C04_coalesce_precedence : forall (name : string) (dflt user : vmap),
+  wf (VMap dflt) ->
+  exists r, to_render_values (mkChart name dflt []) user = Some r
+  /\ (forall p x, lookup_path p (VMap user) = Some x -> is_table x = false -> x <> VNull ->
+                  lookup_path p (VMap r) = Some x)
+  /\ (forall p, defines p (VMap user) = false -> lookup_path p (VMap r) = lookup_path p (VMap dflt))
+  /\ (forall p y, lookup_path p (VMap user) = Some VNull -> lookup_path p (VMap dflt) = Some y ->
+                  lookup_path p (VMap r) = None)
+  /\ (forall p, lookup_path p (VMap user) = Some VNull -> lookup_path p (VMap dflt) = None ->
+                lookup_path p (VMap r) = Some VNull).
+Proof. exact coalesce_single_chart. Qed.
+Print Assumptions C04_coalesce_precedence.
+
+(* chartutil.MergeValues (used while values are still being assembled): same precedence, but a
+   user null survives *)
+Theorem C04_merge_values_keeps_null : forall (name : string) (dflt user : vmap),
+  wf (VMap dflt) ->
+  exists r, merge_values_root (mkChart name dflt []) user = Some r
+  /\ (forall p x, lookup_path p (VMap user) = Some x -> is_table x = false -> x <> VNull ->
+                  lookup_path p (VMap r) = Some x)
+  /\ (forall p, defines p (VMap user) = false -> lookup_path p (VMap r) = lookup_path p (VMap dflt))
+  /\ (forall p, lookup_path p (VMap user) = Some VNull -> lookup_path p (VMap r) = Some VNull).
+Proof. exact merge_values_single_chart. Qed.
+Print Assumptions C04_merge_values_keeps_null.
+
+Example C04_coalesce_precedence_nonvacuous :
+  wf (VMap ex_dflt)
+  /\ exists r, to_render_values (mkChart "top" ex_dflt []) ex_user = Some r
+  /\ lookup_path ["a"; "x"] (VMap r) = None
+  /\ lookup_path ["a"; "y"] (VMap r) = Some (VNum 2%Z)
+  /\ lookup_path ["a"; "w"] (VMap r) = Some (VStr "new")
+  /\ lookup_path ["c"] (VMap r) = Some (VStr "scalar")
+  /\ lookup_path ["d"] (VMap r) = Some VNull
+  /\ lookup_path ["b"] (VMap r) = Some (VStr "keep").
+Proof. exact (conj ex_dflt_wf ex_coalesce). Qed.
+Print Assumptions C04_coalesce_precedence_nonvacuous.
